@@ -1410,7 +1410,9 @@ def optimised_cases(ctx, run):
     mods = refused[:ctx.n(40, 160)] + accepted[:ctx.n(24, 100)]
     eqs = list(snap["eq"])
     rng.shuffle(eqs)
-    creates = snap["create"] if ctx.quick() else snap["create"][:260]
+    must = [c for c in snap["create"] if c["obs"].raised or c["expect_invalid"]]
+    rest = [c for c in snap["create"] if not (c["obs"].raised or c["expect_invalid"])]
+    creates = must + (rest if ctx.quick() else rest[:200])
     rts = snap["roundtrip"] if ctx.quick() else snap["roundtrip"][:80]
     remotes = [Remote(mode) for mode in MODES]
     for rem in remotes:
